@@ -1,1 +1,2 @@
 import BufrProofs.Bits
+import BufrProofs.Expand
